@@ -10,6 +10,8 @@ import supp.name
 import supp.scope
 import supp.evaluator
 import supp.assistant
+import supp.project
+import supp.linter
 from supp.assistant import location, assist
 from supp.project import Project
 
@@ -83,10 +85,12 @@ def install():
     supp.scope.set = NondetSet
     supp.evaluator.set = NondetSet
     supp.assistant.set = NondetSet
+    supp.project.set = NondetSet
+    supp.linter.set = NondetSet
 
 
 def uninstall():
-    for m in (supp.name, supp.scope, supp.evaluator, supp.assistant):
+    for m in (supp.name, supp.scope, supp.evaluator, supp.assistant, supp.project, supp.linter):
         if 'set' in m.__dict__:
             del m.__dict__['set']
 
@@ -107,16 +111,24 @@ CASES = [
 ASSIST_CASES = [
     ('Handler = 1\nhandler = 2\nHANDLER = 3\nhAndler = 4\nhan', (5, 3), {}),
     ('import cm\ncm.', (2, 3), {'cm': 'Circle = 1\ncircle = 2\nCIRCLE = 3\ncIrcle = 4\n'}),
+    # a submodule reached through a qualified import of a cached project module: asked repeatedly on one project
+    ('import helper\nhelper.pkg.sub.', (2, 15), {'helper': 'import pkg.sub\n', 'pkg/__init__': '', 'pkg/sub': 'alpha = 1\nbeta = 2\ngamma = 3\n'}),
+    # the same module name in several configured roots (first configured root wins, whatever a set would say)
+    ('import shared\nshared.', (2, 7), {'src/shared': 'from_src = 1\n', 'vendor/shared': 'from_vendor = 1\n', 'third/shared': 'from_third = 1\n',
+                                       'fourth/other': 'x = 1\n'}, ('src', 'vendor', 'third', 'fourth')),
+    ('from shared import ', (1, 19), {'zz/shared': 'in_zz = 1\n', 'aa/shared': 'in_aa = 1\n'}, ('zz', 'aa')),
 ]
 ROOT = [None]
 
 
 def materialise(path):
     """called by props/c17.py before the queries start (CrossHair blocks file writes during analysis)"""
-    for i, (src, pos, mods) in enumerate(CASES + ASSIST_CASES):
+    for i, case in enumerate(CASES + ASSIST_CASES):
+        mods = case[2]
         d = os.path.join(path, 'c%d' % i)
         os.makedirs(d, exist_ok=True)
         for m, text in mods.items():
+            os.makedirs(os.path.dirname(os.path.join(d, m)), exist_ok=True)
             with open(os.path.join(d, m + '.py'), 'w') as f:
                 f.write(text)
 
@@ -127,14 +139,19 @@ def root():
 
 def observe(i):
     if i >= len(CASES):
-        src, pos, mods = ASSIST_CASES[i - len(CASES)]
+        case = ASSIST_CASES[i - len(CASES)]
+        src, pos, mods = case[:3]
         d = os.path.join(root(), 'c%d' % i)
-        return [repr(assist(Project([d]), src, pos, os.path.join(d, 'main.py')))]
+        roots = [os.path.join(d, r) for r in case[3]] if len(case) > 3 else [d]
+        p = Project(roots)
+        # the same request three times on one long-lived project, then once on a new one
+        return [repr(assist(p, src, pos, os.path.join(d, 'main.py'))) for _ in range(3)] + \
+               [repr(assist(Project(roots), src, pos, os.path.join(d, 'main.py')))]
     src, pos, mods = CASES[i]
     d = os.path.join(root(), 'c%d' % i)
     p = Project([d])
     loc = location(p, src, pos, os.path.join(d, 'main.py'))
-    out = [repr(loc)]
+    out = [repr(loc), repr(location(p, src, pos, os.path.join(d, 'main.py')))]
     for m in mods:
         mod = p.get_module(m)
         out.append(repr([(k, v.declared_at) for k, v in mod._attrs.items()]))
@@ -144,7 +161,16 @@ def observe(i):
 def source_order_ok(i, obs):
     """alternatives of a multiply-bound name are listed in source order"""
     import ast
+    if len(set(obs[:2])) != 1 or (i >= len(CASES) and len(set(obs)) != 1):
+        return False        # repeated identical requests answered differently
     if i >= len(CASES):
+        case = ASSIST_CASES[i - len(CASES)]
+        if len(case) > 3:
+            # first configured root wins
+            first = sorted(m for m in case[2] if m.startswith(case[3][0] + '/'))[0]
+            member = case[2][first].split(' ')[0]
+            return member in obs[0] and not any(t.split(' ')[0] in obs[0] for m, t in case[2].items()
+                                                if m.endswith('/shared') and m != first)
         return True
     loc = ast.literal_eval(obs[0])
     for r in loc:
@@ -172,7 +198,7 @@ def run_case(i, choices):
 
 def check(case: int, o0: int, o1: int, o2: int) -> bool:
     """
-    pre: 0 <= case < 10
+    pre: 0 <= case < 13
     pre: 0 <= o0 < 6 and 0 <= o1 < 6 and 0 <= o2 < 6
     post: _
     """
